@@ -17,7 +17,7 @@ from .common import guarded
 INFO = dict(
     rule='histories over an alphabet of ~24 (plain) / ~32 (directional) assignments (two values per setting incl. '
          're-assigning the current one) with reads interleaved; all length-1 histories, seeded length-2 (exhaustive in '
-         'the thorough tier) and random histories of length 3-8, from 3 constructor configurations; n_lags / maxlag '
+         'the thorough tier) and random histories of length 3-8, from 4 constructor configurations; n_lags / maxlag '
          'under user-supplied edges are excluded; distinct = distinct op sequence; non-trivial = at least one '
          'assignment that changes a value followed by a read',
     trusted=['the fit is deterministic for equal inputs (compared at 1e-6 relative)'],
@@ -45,13 +45,16 @@ class World:
         dmax = float(pdist(self.coords).max())
         self.edges = [[round(dmax * f, 3) for f in (0.15, 0.3, 0.5, 0.7)],
                       [round(dmax * f, 3) for f in (0.1, 0.25, 0.45, 0.6, 0.8)]]
+        self.far_maxlag = round(dmax * 1.5, 3)
         self.alphabet = []
         A = self.alphabet
         for k in (0, 1, 2, 3):
             A.append(('values', k))
         for v in (5, 8, 'current'):
             A.append(('n_lags', v))     # 'current': re-assign the number of classes in use right now
-        for v in (None, 0.6, 'median'):
+        # absolute maximum lags: within the data, and beyond every distance (the edges then end at the largest
+        # *selected* distance, which for a directional variogram depends on the direction settings)
+        for v in (None, 0.6, 'median', round(dmax * 0.85, 3), round(dmax * 1.5, 3)):
             A.append(('maxlag', v))
         for v in ('even', 'uniform', 'sturges', 'edges0'):
             A.append(('bin_func', v))
@@ -85,10 +88,13 @@ class World:
                   use_nugget=False, fit_method='trf', fit_sigma=None, dist_function='euclidean')
         c1 = dict(c0, n_lags=7, maxlag='median', bin_func='uniform', use_nugget=True, model='exponential')
         c2 = dict(c0, bin_func='sturges', estimator='dowd', fit_sigma='linear')
+        # equidistant classes up to an absolute maximum lag beyond the data: they end at the largest selected distance
+        c3 = dict(c0, n_lags=5, maxlag=self.far_maxlag)
         if self.directional:
             d = dict(azimuth=0, tolerance=45.0, bandwidth='q33', directional_model='triangle')
-            return [dict(c0, **d), dict(c1, **dict(d, azimuth=60)), dict(c2, **dict(d, directional_model='compass'))]
-        return [c0, c1, c2]
+            return [dict(c0, **d), dict(c1, **dict(d, azimuth=60)), dict(c2, **dict(d, directional_model='compass')),
+                    dict(c3, **d)]
+        return [c0, c1, c2, c3]
 
     def edges_of(self, v):
         return self.edges[0] if v == 'edges0' else self.edges[1]
